@@ -16,7 +16,7 @@ RULE = ("cases = generated well-formed plotfiles (C01 population incl. scattered
         "an option combination different from the default")
 ASSUMPTIONS = ["well-formed = what the generator writes (NaN-ignoring min/max rows; no all-NaN "
                "box component)", "pool shim M1 in-process with shuffled schedules"]
-REQUIRED_OBS = {"validations": 500, "controls_above_limit": 5, "cli_validations": 100}
+REQUIRED_OBS = {"validations": 500, "path_previously_reported_bad": 4, "controls_above_limit": 5, "cli_validations": 100}
 # (the stage:* counters - which validation stages actually ran - are reported in the evidence but not
 #  required: they hang on internal method names)
 TIMEOUT = {"quick": 300, "thorough": 1500}
@@ -66,6 +66,20 @@ def run_case(case, work, rec):
         m = None
     else:
         m, path = workload.build(case, work)
+        if case["gen"]["seed"] % 2 == 0:
+            # history: a damaged plotfile sat at this very path and was reported bad (fail and nofail
+            # mode) before the well-formed one was written there - the verdict must not be remembered
+            lv = m.nlevels - 1
+            victim = os.path.join(path, f"Level_{lv}", sorted(set(m.files[lv]))[0])
+            with open(victim, "r+b") as f:
+                f.truncate(max(0, os.path.getsize(victim) - 9))
+            for nofail in (True, False):
+                try:
+                    bool(Taster(path, nofail=nofail, verbose=0))
+                except Exception:
+                    pass
+            rec.count("path_previously_reported_bad")
+            m, path = workload.build(case, work)
         finest = m.nlevels - 1
         digest = common.sha(case["gen"], case["fmt"])
         inter = any(m.nfiles(lv) >= 2 or m.nonmonotone(lv) for lv in range(m.nlevels))
